@@ -73,6 +73,63 @@ def detector(kind, pol_for_attrs=None):
     return d
 
 
+def permuted_request(ctx, rq, fin, sc, th, alpha):
+    """two channels, every per-channel quantity a dictionary in its own key order; each channel of the result
+    must be the single-channel hologram of that channel's own wavelength, polarisation and scaling"""
+    det = detector("multichannel")
+    src = fin["attrs"]
+    wl_kw = {"red": 0.66, "green": 0.52}                      # (red, green): not the detector's order
+    wl_det = {"red": 0.63, "green": 0.5}
+    pol_kw = {"green": (0.0, 1.0), "red": (0.6, 0.8)}          # (green, red), different polarisations
+    pol_det = {"green": (1.0, 0.0), "red": (0.0, 1.0)}
+    scaling = {"red": alpha, "green": 0.0}                     # (red, green); the green channel is switched off
+    dm, kw = {}, {}
+    if rq["wl"] in ("det", "both"):
+        dm["illum_wavelen"] = wl_det
+    if rq["mi"] in ("det", "both"):
+        dm["medium_index"] = DET_MI
+    if rq["po"] in ("det", "both"):
+        dm["illum_polarization"] = pol_det
+    if rq["wl"] in ("kw", "both"):
+        kw["illum_wavelen"] = wl_kw
+    if rq["mi"] in ("kw", "both"):
+        kw["medium_index"] = NMED
+    if rq["po"] in ("kw", "both"):
+        kw["illum_polarization"] = pol_kw
+    if th is not None:
+        kw["theory"] = th
+    try:
+        with warnings.catch_warnings():
+            warnings.simplefilter("ignore")
+            det = update_metadata(det, **dm) if dm else det
+            h = calc_holo(det, sc, scaling=scaling, **kw)
+    except Exception as e:
+        ctx.violation("request/per_channel/exception", {"req": rq, "exc": repr(e)[:300]})
+        return
+    wl = wl_kw if src["illum_wavelen"] == "kw" else wl_det
+    po = pol_kw if src["illum_polarization"] == "kw" else pol_det
+    mi = NMED if src["medium_index"] == "kw" else DET_MI
+    single = detector_grid(4, 0.3)
+    for ch in ("red", "green"):
+        skw = dict(medium_index=mi, illum_wavelen=wl[ch], illum_polarization=po[ch])
+        if th is not None:
+            skw["theory"] = th
+        with warnings.catch_warnings():
+            warnings.simplefilter("ignore")
+            hs = calc_holo(single, sc, scaling=scaling[ch], **skw)
+        a = np.asarray(h.sel(illumination=ch).transpose("x", "y", ...).values).ravel()
+        b = np.asarray(hs.transpose("x", "y", ...).values).ravel()
+        d = float(np.max(np.abs(a - b))) if a.shape == b.shape else float("inf")
+        if d > 1e-12 or (ch == "green" and not np.all(np.abs(a - 1.0) <= 4 * np.finfo(float).eps)):
+            ctx.violation("request/per_channel/%s" % ("switched_off_channel_not_one" if ch == "green" and d <= 1e-12 else "channel_value"),
+                          {"req": rq, "channel": ch, "defect": d})
+            return
+        if abs(float(h.illum_wavelen.sel(illumination=ch)) - wl[ch]) > 1e-15:
+            ctx.violation("request/per_channel/attrs_wavelength", {"req": rq, "channel": ch, "impl": float(h.illum_wavelen.sel(illumination=ch))})
+            return
+    ctx.trace_ok()
+
+
 def expected_holo(E, pvec, alpha):
     """|alpha E + p|^2 summed over x, y, as an expression on the calc_field output"""
     e = E.sel(vector=["x", "y"])
@@ -135,6 +192,12 @@ def run(ctx):
     rng.shuffle(inits)
     n = 260 if quick else 4000
     chosen, seen = [], set()
+    nperm = 0
+    # the per-channel dictionary requests are rare in the product: always take a batch of them
+    perm = [s_ for s_ in inits if g.states[s_]["req"]["det"] == "multichannel_permuted"
+            and g.states[s_]["req"]["alpha"] != "zero" and g.states[s_]["req"]["wl"] != "none"
+            and g.states[s_]["req"]["mi"] != "none" and g.states[s_]["req"]["po"] != "none"]
+    chosen += perm[:24] if quick else perm
     for sid in inits:
         rq = g.states[sid]["req"]
         vals = {(k, v) for k, v in rq.items()}
@@ -156,6 +219,13 @@ def run(ctx):
         want = fin["outcome"]
         ctx.case(tuple(sorted(rq.items())), nontrivial=want[0] == "hologram")
         sc, th = scatterer(rq["scat"])
+        if rq["det"] == "multichannel_permuted":
+            if want[0] == "hologram" and ALPHA[rq["alpha"]] != 0:
+                permuted_request(ctx, rq, fin, sc, th, ALPHA[rq["alpha"]])
+                nperm += 1
+            else:
+                ctx.trace_ok()
+            continue
         det = detector(rq["det"])
         multi = rq["det"] == "multichannel"
         polv = POL[rq["pol"]]
@@ -279,6 +349,9 @@ def run(ctx):
         else:
             ctx.trace_ok()
     ctx.sample({"request": dict(rq), "spec_outcome": list(want), "spec_attrs_source": dict(fin["attrs"]) if fin["attrs"] else None})
+    ctx.notes["per_channel_dictionary_requests"] = nperm
+    if nperm == 0:
+        raise harness.MachineryError("no per-channel dictionary request was replayed")
 
     # ---------------- history independence -------------------------------------------------------
     gh = ctx.tlc_graph("Holo", "Holo_history.cfg")
